@@ -60,6 +60,10 @@ CHECKS = {
  "C03": dict(cat="model_checking", ref="§3 C03",
    text="Explicit-state exploration of lifecycle histories (Send of fresh unmistakable markers, End, query, injected error report, SMP, extra-key request, clock tick, every FIFO delivery order) under policy sets covering every combination of the four behaviour flags on the sender, with and without fragmentation. A wire monitor inspects every message returned by every call: each marker is searched raw, inside the base64 armour and across reassembled fragments, and every data message is opened with the session keys. A marker given to Send while encrypted, finished or under required encryption must never be readable; a finished-state marker must not be emitted at all; a queued marker may only leave inside data messages of a later session.",
    tech="explicit-state model checking of the implementation with a wire monitor on every emitted message"),
+ "C10": dict(cat="model_checking", ref="§3 C10",
+   text="(a) Explicit-state exploration of honest session histories from the query on (one or both sides asking, texts with key rotation, SMP, extra symmetric key, End, fragmentation, all delivery interleavings): every emitted message is parsed by verifref — an independent implementation written from the specification with the standard library only — and re-derived from both sides' secrets, located in the randomness logs by verification (g^d, commitment hash): commit, D-H key, SSID, c/c', m1/m1', m2/m2', the decrypted signature block and its DSA signature, data-message key ids per the specification's ratchet, next D-H key, counters, session keys with the high/low-end rule, MAC, plaintext layout, extra symmetric key, and the whole data message rebuilt byte for byte. (b) A reference peer written from the specification talks to the real conversation in both exchange roles (texts, extra-key requests, End, fragments): everything either side builds must be accepted and read exactly by the other; SSID, fingerprint and extra keys agree.",
+   tech="explicit-state model checking of the implementation against an independent reference implementation stepped in lock-step (wire re-derivation and reference peer)",
+   note="verifref (ref/*.go) is trusted as the statement of the specification; it shares only the Go standard library with otr3 and does not cover the SMP proofs"),
 }
 NA_REASON = "check not built yet (work in progress; see DESIGN.md §3 for the planned bounded exploration)"
 def main():
